@@ -75,6 +75,8 @@ func checkC09(p *Program, r *Result) {
 	}
 	r.rule("C09.f", "the destination of a full read is consumed only where the read succeeded", 10)
 	checkConsumeAfterFullRead(p, r, "C09.f", sortedFuncs(readerScope(p)))
+	r.rule("C09.l", "a full read's destination is cut to the wanted length on every path", 1)
+	checkFullReadLength(p, r, "C09.l", sortedFuncs(readerScope(p)))
 	r.rule("C09.t", "how much input the source reports as left never enters a decoding decision (no dynamic type test of a source beyond seekability)", 1)
 	checkSourceTypeTests(p, r, "C09.t", sortedFuncs(readerScope(p)))
 
